@@ -202,13 +202,13 @@ def run(ctx):
             ctx.ob(['C14'], 'R-ITER', 'C14-D5|all-%ss-written' % k, okL, 'every %s of the module is appended to the buffer (one write per iteration, unfiltered)' % ('definition' if k == 'item' else 'extern value'), loc(c['span']))
     # prologue / epilogue source: backends.get("rust"), flattened in order
     okb = False
-    getc = [c for c in wm.calls(lambda r: r['path'] and r['path'].endswith('HashMap::<K, V, S, A>::get'))]
+    getc = [c for c in wm.calls(lambda r: r['path'] and re.search(MAPM('get'), r['path']))]
     for c in getc:
         e = wm.expr_of_call(c['term'])
         if any(isinstance(x, tuple) and x[0] == 'field' and x[2] == 'backends' for x in walk(e[2][0])) and ('str', 'rust') in list(walk(e[2][1])):
             okb = True
     n_get = len([c for c in getc if any(isinstance(x, tuple) and x[0] == 'field' and x[2] == 'backends' for x in walk(wm.expr_of_call(c['term'])[2][0]))])
-    iters = [c for c in wm.calls(lambda r: r['path'] and re.search(r'HashMap::<K, V, S, A>::(iter|values|keys|into_iter)$', r['path']))]
+    iters = [c for c in wm.calls(lambda r: r['path'] and re.search(MAPM('iter|values|keys|into_iter'), r['path']))]
     ctx.ob(['C14'], 'R-EXPR', 'C14-D5|rust-backend-only', okb and n_get == 1 and not iters, 'prologues and epilogues are taken from backends["rust"] only (one keyed lookup with the literal "rust", the map is never iterated)', where)
     for nm in ('prologue', 'epilogue'):
         vs = [a for k, a in [(what(a), a) for c, a in writes] if k == nm]
